@@ -495,6 +495,75 @@ def stepAsync (st : DState) (args : List String) : Option (DState × String) :=
     | _, _ => some (st, "busy")
   | _ => none
 
+open Run in
+def parseHOp (tok : String) : Option HOp :=
+  let body := (tok.drop 1).toString
+  match tok.front with
+  | 'r' => (natArg body).map .read
+  | 'R' => some .readAll
+  | 'f' => some .fill
+  | 'c' => (natArg body).map .consume
+  | 's' => (natArg body).map .setStream
+  | 'w' => some .writeable
+  | 'o' => (natArg body).map .open_
+  | 'd' => (natArg body).map .dropW
+  | 'F' => (natArg body).map .flush
+  | 'W' => match body.splitOn ":" with
+    | [i, h] => do some (.writeAll (← natArg i) (← bytesOfHex h))
+    | _ => none
+  | 'X' => match body.splitOn ":" with
+    | [k, c] => (parseStatus k c).map .ret
+    | _ => none
+  | 'E' => match body with
+    | "aborted" => some (.retErr .connectionAborted) | "invalid" => some (.retErr .invalidData) | "other" => some (.retErr .other)
+    | "eof" => some (.retErr .unexpectedEof) | "twrite" => some (.retErr .transportWrite) | _ => none
+  | _ => none
+
+/-- `~op,op,...` = errors ignored; otherwise propagated -/
+def parseScript (s : String) : Option (List Run.HOp × Bool) :=
+  let (prop, body) := if s.startsWith "~" then (false, (s.drop 1).toString) else (true, s)
+  if body == "-" then some ([], prop) else ((body.splitOn ",").mapM parseHOp).map (·, prop)
+
+def parseGate1 (g : String) : Option Run.Gate :=
+  if g.startsWith "X" then (bytesOfHex (g.drop 1).toString).map .hasRec
+  else if g.startsWith "R" then (natArg (g.drop 1).toString).map .records
+  else if g.startsWith "E" then (natArg (g.drop 1).toString).map .endreqs
+  else if g.startsWith "I" then (natArg (g.drop 1).toString).map .endOf
+  else (natArg g).map .bytes
+
+def parseGate (g : String) : Option Run.Gate :=
+  match g.splitOn "&" with
+  | [a] => parseGate1 a
+  | [a, b] => do some (.both (← parseGate1 a) (← parseGate1 b))
+  | _ => none
+
+def parseSegs (s : String) : Option (List (Run.Gate × Bytes)) :=
+  if s == "-" then some [] else
+  (s.splitOn ",").mapM fun item =>
+    match item.splitOn "@" with
+    | [h, g] => do some (← parseGate g, ← bytesOfHex h)
+    | [h] => do some (.bytes 0, ← bytesOfHex h)
+    | _ => none
+
+def stepRun (args : List String) : Option String :=
+  match args with
+  | "t.run" :: rest => do
+    let b ← natArg (← kv rest "B")
+    let mc ← natArg (← kv rest "mc")
+    let segs ← parseSegs (← kv rest "in")
+    let endMode ← (match (← kv rest "end") with | "eof" => some Async.EndMode.eof | "pend" => some .pend | "err" => some .err | _ => none)
+    let rd ← parseAnsList (← kv rest "rd") parseRd
+    let wr ← parseAnsList (← kv rest "wr") parseWr
+    let fl ← parseAnsList (← kv rest "fl") parseFl
+    let stopAt ← (match (← kv rest "stop") with | "none" => some none | x => (natArg x).map some)
+    let hs ← ((← kv rest "h").splitOn ";").mapM parseScript
+    let c : Run.Conn := { phase := .parseReq (Req.Parser.new b mc) .start,
+                          env := { tr := { input := [], endMode, rd, wr, fl }, segs := segs }, scripts := hs }
+    let (c, fin) := Run.runTask 100000 c 0 stopAt
+    let evs := String.intercalate " " c.env.tr.events
+    some s!"{evs} {fin} wlog={hexOrDash c.env.tr.wlog}"
+  | _ => none
+
 def step (st : DState) (line : String) : DState × String :=
   if line.startsWith "# case" then ({ cur := .none, a := {} }, line) else
   if line.startsWith "#" then (st, line) else
@@ -504,6 +573,9 @@ def step (st : DState) (line : String) : DState × String :=
   | none =>
   match stepAsync st args with
   | some r => r
+  | none =>
+  match stepRun args with
+  | some o => (st, o)
   | none =>
   match stepVarInt args with
   | some o => (st, o)
